@@ -4,7 +4,7 @@ import random
 from fractions import Fraction as Fr
 
 from .. import families as fam
-from ..dsl import (Cfg, Sym, Con, X, U, Z, Pg, Vg, t, T, t0, tf, DT, DTc, nl1, nl2, at_t0, at_tf, offset, nxt, prv, C)
+from ..dsl import (Cfg, Sym, Con, X, U, Z, Pg, Vg, t, T, t0, tf, DT, DTc, nl1, nl2, at_t0, at_tf, offset, nxt, prv, C, PINF, NINF)
 from ..instance import Inst
 from ..match import Checker
 from ..sx2smt import RZ, emb
@@ -50,6 +50,8 @@ def constraint_sets(spec, method):
     s1.append(Con('<=', [x0 + t, x1 * pc], [4, a + 6]))
     s1.append(Con('>=', [x1, x0 - x1], -8, grid='integrator' if method != 'SS' else None))
     s1.append(Con('==', [at_tf(x0), at_t0(x1) + at_tf(x1)], [a, 2]))
+    # vector-valued two-sided constraint with infinite bounds on some rows only
+    s1.append(Con('<=<=', [NINF, -1, -3], [2, 1, PINF], mid=[x0, (u if u is not None else x1) * pc, x1 + t]))
     sets.append(s1)
     s2 = [Con('<=', x0 * x0 + nl1(x1), t + T, include_first=False),
           Con('>=', x1 - t0, -2, include_last=False),
